@@ -723,6 +723,10 @@ def plans_d1(entry):
     yield ('two-sets', {'sets': 2})
     yield ('two-groups', {'groups': 2})
     yield ('two-interchanges', {'interchanges': 2})
+    # every segment of the map in each of two sets of each of two groups: whatever is chosen per group or per set (the map,
+    # counters, cursors) is chosen a second time on a document on which a wrong choice shows
+    yield ('all-twice', {'all': True, 'sets': 2, 'groups': 2})
+    yield ('all-filled-two-groups', {'all': True, 'fill_all': True, 'groups': 2})
     yield ('lower', {'shape': 'lower', 'all': True, 'fill_all': True})
     yield ('signed', {'shape': 'signed'})
     yield ('signed-all-filled', {'shape': 'signed', 'all': True, 'fill_all': True})
